@@ -309,7 +309,7 @@ ROUND11 = {
  "C12": ("no-carried-state rule for the walk callback", " R12.15: the walk callback assigns no captured variable but the list it appends to."),
  "C13": ("", " R13.7 also reads a recorded end field."),
  "C15": ("whole-list rule, header-format rule", " R15.22: the loop over the list of files is left only at its end or with an error. R15.23: no tar header is pinned to USTAR."),
- "C16": ("", " R16.1 follows the helper that builds the list and a boolean helper that accepts an element only within the threshold."),
+ "C16": ("", " R16.1 follows the helper that builds the list and a boolean helper that accepts an element only within the threshold. R16.10: the common-words gate compares a count of matching patterns with at least one. Shared R15.21."),
  "C17": ("pending-word-first rule", " R17.12: a token that is built and appended in one step is appended behind the test for a pending word."),
  "C18": ("tested-bound rule for string slices, RuneLen pitfall rule, carriage-return rule", " R18.25: the input is sliced up to a computed bound only behind a test of that bound. R18.26: utf8.RuneLen is not applied to a rune that came out of a decoder. R18.27: the text of a single-line comment is recorded through a trim of the carriage return (D55)."),
  "C20": ("chosen-operand rule", " R20.16: a map that is ranged over or probed is an operand's map on every path (no nil edge). R20.8 also reports an ordering function that compares the results of a call instead of the elements."),
